@@ -142,7 +142,7 @@ def rnd_benign(rng, w, h, allow_ext):
     if k == "fbur":
         return m_fbur(rng.randint(0, 1), rng.randrange(0, w + 3), rng.randrange(0, h + 3), rng.randrange(0, w + 5), rng.randrange(0, h + 5))
     if k == "setenc":
-        pool = [0, 1, 2, 4, 5, 6, 7, 16, -239, -223, -224, -232, -247, -256, -32, 0x574D5664, 17, 9, -308, -260]
+        pool = [0, 1, 2, 4, 5, -239, -223, -224, -232, -247, -256, -32, 0x574D5664, -308, -260, 0x7FFFFFFF]  # no zlib/tight/zrle/ultra: their encoders belong to other properties
         n = rng.choice([0, 1, 3, 8, 20])
         encs = [rng.choice(pool) for _ in range(n)]
         if allow_ext and rng.random() < 0.5:
@@ -265,8 +265,6 @@ def gen_mix(rng, nops):
                     msgs.append(rnd_cut(rng))
                 elif q < 0.80:
                     s = rng.choice([1, 2, 2, 3, 4, 7]) if rng.random() < 0.8 else rng.randrange(1, 256)
-                    if w < s <= h:       # zero-width scaled screen: undefined behaviour in scale.c (C17/C04), excluded
-                        s = 1
                     msgs.append(m_scale(s, rng.random() < 0.25))
                 elif q < 0.97:
                     msgs.append(rnd_benign(rng, w, h, utf8))
@@ -394,6 +392,8 @@ def all_cuts(n, k):
         return [[a] for a in range(0, n + 1)]
     if k == 2:
         return [[a, b] for a in range(0, n + 1) for b in range(a, n + 1)]
+    if k == 3:
+        return [[a, b, c] for a in range(0, n + 1) for b in range(a, n + 1) for c in range(b, n + 1)]
     raise ValueError
 
 
@@ -649,10 +649,8 @@ def oracle(lines, anns, impl):
                         s = m[1]
                         if s == 1:
                             scale[c] = None
-                        elif H // s == 0:
+                        elif H // s == 0 or W // s == 0:
                             pass                           # refused by the library, scale unchanged
-                        elif W // s == 0:
-                            simple = False
                         else:
                             scale[c] = s
                     elif k == "benign":
@@ -766,7 +764,9 @@ def run(ctx):
             scripts.append(gen_seg(rng, which, 1))
             if thorough or n <= 24:
                 scripts.append(gen_seg(rng, which, 2))
-        for _ in range(120 if not thorough else 1500):
+            if thorough and n <= 16:
+                scripts.append(gen_seg(rng, which, 3))
+        for _ in range(120 if not thorough else 3000):
             scripts.append(gen_mix(rng, rng.choice([10, 25, 50])))
         for _ in range(15 if not thorough else 150):
             scripts.append(gen_gate(rng))
@@ -825,10 +825,23 @@ def run(ctx):
     }
 
 
-PARTIAL = []
-ASSUMPTIONS = []
+PARTIAL = [
+    "pointer coalescing (deferPtrUpdateTime > 0, not the default): only the local facts defer_flush_keeps_order_partial / defer_delivers_pending_partial are proved; the interval statement (delivered positions are a subsequence of the sent ones and the last position sent is delivered once the interval has run out) needs a clock/schedule abstraction and is checked by the correspondence run + oracle on generated schedules (family `defer`) only",
+    "handshake states are modelled abstractly (canonical `RFB ddd.ddd\\n` version strings, security type byte, password check as an oracle parameter): enough for `gated_handshake`; byte-level sscanf/DES behaviour belongs to C05",
+    "extended-clipboard messages: framing, limit, Caps/Request/Peek handling are modelled to keep the parser in sync; the Provide payload (zlib, UTF-8 callback) is C18's and is excluded from the generator (model marks it out-of-model)",
+    "deliver_exactly_once_in_order assumes the harness configuration of non-input messages (no protocol extensions registered, permitFileTransfer off, default setDesktopSizeHook, no xvp/textchat hooks): messages that this configuration answers by closing the connection (FixColourMapEntries, FileTransfer, unknown types, SetScale 0, bad TextChat length, bad pixel format) are modelled and correspondence-tested but are outside `Benign`",
+]
+ASSUMPTIONS = [
+    "interposed read/recv/select model the kernel: read returns a non-empty prefix of the bytes that have arrived (at most the requested length), EAGAIN when none, select wakes when the next segment arrives and times out when none is in flight (virtual time)",
+    "server-side writes never fail (4 MiB socket buffers, harness drains after every op)",
+    "a raw 16-byte `send` in state RFB_AUTHENTICATION is not a valid DES response (probability 2^-128); valid responses are injected by the `auth` op using the library's own rfbEncryptBytes",
+    "single screen, alwaysShared, application-driven event loop (no background thread): rfbProcessClientMessage is called while input is pending, rfbProcessEvents on `pump`",
+    "SetPixelFormat is generated with sane shifts/maxima only (shifts >= 32 and 24bpp table init have sanitizer findings that belong to C04/C10)",
+]
 
 META = {
-    "technique": "Lean 4 theorems about an executable model of the client-message path + exact differential run against the real server with deterministic stream segmentation + model-independent oracle",
+    "technique": "Lean 4 theorems about an executable model of the client-message path (read programs over segmented streams, parser/encoder round trip, gating, pointer ownership, cut-text limit, scaling) + exact differential run of the model against the real rfbProcessClientMessage/rfbProcessEvents with deterministic stream segmentation (interposed read/select) + model-independent oracle + T0-regenerated sizes/offsets/limit",
+    "level_text": "Proof: Props/C06.lean proves, for the model in VncModel/Input, delivery exactly once / unaltered / in order for every sequence of well-formed messages of a permitted client (incl. all benign non-input message types and mid-stream SetScale), the three gating clauses, invariance under every segmentation for every byte stream, the exact 2^20 cut-text boundary with isolation of the closed connection, parser synchronisation, and the exact scaled mapping without int overflow. The model is tied to the code on every run by regenerated header constants and by an exact differential run (real server in-process vs compiled Lean driver) over generated sessions, exhaustive 1-/2-cut segmentations of every message type, limit boundaries with 1 MiB payloads, exhaustive ScaleX/ScaleY sweeps, plus a direct oracle.",
+    "level_note": "Trusted: Lean kernel (axioms propext/Classical.choice/Quot.sound only), harness incl. the read/select interposers, driver, generators (testing; distribution in evidence). Modelled abstractly: handshake (C05), sharing policy (C14, neutralised by alwaysShared). Not modelled: threads (C13), TLS/WebSocket transports (C09), extended clipboard payload (C18), UDP input. Not proved: the coalescing interval statement (partial).",
     "design_ref": "DESIGN.md section 7, C06",
 }
